@@ -218,6 +218,50 @@ func ConcMain(dir, scriptPath string) int {
 	for range s.Conc {
 		<-done
 	}
+	// all calls have returned: index.json must be the index of the resolver
+	// (C10_conc_quiescent_synced); judged by the parent when it did not kill us first
+	os.Stdout.WriteString("SYNC " + syncReport(ctx, st, dir) + "\n")
 	os.Stdout.WriteString("DONE\n")
 	return 0
+}
+
+// syncReport compares the Store's resolver (Tags / Resolve) with index.json on disk.
+func syncReport(ctx context.Context, st *oci.Store, dir string) string {
+	idx, status := ReadRawIndex(dir)
+	if status != "ok" {
+		return "index.json is " + status
+	}
+	mem := map[string]string{}
+	err := st.Tags(ctx, "", func(tags []string) error {
+		for _, t := range tags {
+			d, err := st.Resolve(ctx, t)
+			if err != nil {
+				return fmt.Errorf("Resolve(%s): %v", t, err)
+			}
+			mem[t] = d.Digest.String()
+		}
+		return nil
+	})
+	if err != nil {
+		return "Tags: " + err.Error()
+	}
+	disk := map[string]string{}
+	for _, m := range idx.Manifests {
+		if r, ok := m.Annotations[refNameKey]; ok {
+			disk[r] = m.Digest
+		} else if _, err := st.Resolve(ctx, m.Digest); err != nil {
+			return "index.json has the digest-only entry " + m.Digest + " which the resolver does not know"
+		}
+	}
+	for r, d := range mem {
+		if disk[r] != d {
+			return fmt.Sprintf("the resolver has %s -> %s, index.json has %q", r, d, disk[r])
+		}
+	}
+	for r, d := range disk {
+		if mem[r] != d {
+			return fmt.Sprintf("index.json has %s -> %s, the resolver has %q", r, d, mem[r])
+		}
+	}
+	return "ok"
 }
